@@ -1,6 +1,8 @@
 (* C14 — a scheduled jump acts exactly once, at its scheduled time. *)
 From Coq Require Import List Arith ZArith QArith.
 Import ListNotations.
+From Coq Require Import Ring.
+From Yaqs Require Import LinAlg.TT.
 From Yaqs Require Import Base.Num Model.JumpPipeline Model.Grid Proofs.JumpPipelineP Proofs.GridQ Gen.SmallGen Proofs.SmallGenP.
 Local Open Scope nat_scope.
 
@@ -46,6 +48,16 @@ Print Assumptions C14_applied_exactly_the_matching.
 Theorem C14_applied_in_listed_order : forall ms pos, Sorted.StronglySorted lt (applied_at ms pos).
 Proof. exact applied_at_sorted. Qed.
 Print Assumptions C14_applied_in_listed_order.
+
+(* a one-site scheduled jump (the operator is contracted with the site tensor): over any commutative ring, for any chain, contracting a local operator u with the tensor of one
+   site changes the represented vector exactly as u acts on that tensor factor — every amplitude, any length and bond dimensions *)
+Theorem C14_local_operator_acts_exactly : forall (K : Type) (k0 k1 : K) (kadd kmul ksub : K -> K -> K) (kopp : K -> K),
+  ring_theory k0 k1 kadd kmul ksub kopp (@eq K) ->
+  forall pre s post u spre p spost, length spre = length pre ->
+  amp K k0 k1 kadd kmul (pre ++ rotate K k0 kadd kmul u s :: post) (spre ++ p :: spost) =
+  bsum K k0 kadd (d K s) (fun q => kmul (u p q) (amp K k0 k1 kadd kmul (pre ++ s :: post) (spre ++ q :: spost))).
+Proof. exact local_operator_acts_on_amplitudes. Qed.
+Print Assumptions C14_local_operator_acts_exactly.
 
 Example C14_example : let s := from_list [2; 4] in
   sample2 s 4 = [Dh; J; U; D1; J; U; D1; Sj 2; U; D1; J; U; Dh; Sj 4] /\ count_S 2 (sample2 s 1) = 0 /\ u_before 4 (sample2 s 4) = Some 4.
